@@ -20,7 +20,7 @@ func init() {
 		Rules: []ruleFunc{c09record, c09attrib, c09anchor, c09sign, func(p *Prog, r *Report) {
 			r.Rule("C09.verify", 1, "Block.Verify returns true only through keys.Verify over Body.Hash() with the signer's key and this signature")
 			verifyProvenance(p, r, "C09.verify", []string{"Block"})
-		}, c09reset, func(p *Prog, r *Report) { digestRule(p, r, "C09.digest", []string{"BlockBody"}) }, func(p *Prog, r *Report) { proxyErrRule(p, r, "C09.delivered") }, func(p *Prog, r *Report) { thresholdUseRule(p, r, "C09.threshold") }},
+		}, c09reset, func(p *Prog, r *Report) { digestRule(p, r, "C09.digest", []string{"BlockBody"}) }, func(p *Prog, r *Report) { proxyErrRule(p, r, "C09.delivered") }, func(p *Prog, r *Report) { thresholdUseRule(p, r, "C09.threshold") }, func(p *Prog, r *Report) { trustRule(p, r, "C09.trust") }},
 	})
 }
 
